@@ -1,6 +1,8 @@
 package main
 
 import (
+	"go/token"
+	"go/ast"
 	"os"
 	"fmt"
 	"go/types"
@@ -358,6 +360,15 @@ func (e *Exec) applyContract(st *State, fr *Frame, site ssa.Instruction, c *Cont
 	ctx.vars = vs
 	cname := c.Name
 	for _, r := range c.Requires {
+		if len(onlyClasses) > 0 && !classSelected("PRE") && lockRelated(r.Text) {
+			// lockset run: the lock-ownership conjuncts of a pre-condition are
+			// obligations (class LOCK.pre), the rest of it is assumed
+			for _, cj := range conjuncts(r.Expr) {
+				if lockRelated(exprStr(cj)) {
+					e.check(st, fr, "LOCK.pre", site, cname+" requires "+exprStr(cj)+" | "+e.P.srcLine(site.Pos()), ctx.evalBool(cj))
+				}
+			}
+		}
 		e.check(st, fr, "PRE", site, cname+" requires "+r.Text+" | "+e.P.srcLine(site.Pos()), ctx.evalBool(r.Expr))
 	}
 	old := st.snapshot()
@@ -562,4 +573,16 @@ func (e *Exec) literalShape(st *State, fn *ssa.Function, args []Val, names []str
 		}
 	}
 	return out, true
+}
+
+func conjuncts(ex ast.Expr) []ast.Expr {
+	switch x := ex.(type) {
+	case *ast.ParenExpr:
+		return conjuncts(x.X)
+	case *ast.BinaryExpr:
+		if x.Op == token.LAND {
+			return append(conjuncts(x.X), conjuncts(x.Y)...)
+		}
+	}
+	return []ast.Expr{ex}
 }
